@@ -7,4 +7,4 @@ CONSTANTS
   HistOn = FALSE
   AddSizes = {1}
   RewindPoints <- RPAll
-INVARIANTS Deterministic ProofsOK StoreComplete SequentialSyncOK
+INVARIANTS Deterministic ProofsOK StoreComplete SequentialSyncOK PersistedConsistent
